@@ -131,4 +131,9 @@ def run(ctx, chk):
                     okc = an.is_call(a0, re.compile(r"^<&seq::slice::SeqSlice<codec::iupac::Iupac> as std::ops::BitAnd>::bitand$"), (me, P(2))) and a1 == P(2)
             chk.ob("G-contains", what, okc, "on equal lengths must compare (content(self) & content(rhs)) with rhs (the argument); got " + got, b["span"], sample=got)
             n += 1
+    import core
+    for cfg in ctx.configs():
+        chk.cfg = cfg.name
+        # contains compares the intersection with the argument through Seq == &SeqSlice: C02's equality rows
+        core.import_rows(chk, cfg, "C02", "props.C02", ("S-eq", "G-kmer-eq"))
     chk.floor("operator and contains rows", n, 7 * len(chk.configs))
